@@ -126,6 +126,7 @@ def run_task(task):
                 "stats": c.stats.as_dict(),
                 "undecided": c.undecided,
                 "notes": c.notes[:5],
+                "noise_ok": c.noise_ok,
                 "functions": sorted(c.functions),
                 "n_records": len(c.records),
                 "validation": None,
